@@ -10,13 +10,14 @@ PROP = {
   "saml2_tophat.mdstore:destinations"
  ],
  "bounded": [
-  "mdstore_lookup"
+  "mdstore_lookup",
+  "md_generate"
  ],
  "level": "other",
- "explanation": "Deductive part: MetadataStore.service returns the answer of one loaded source for exactly the queried entity, role, service and binding and distinguishes UnknownSystemEntity from UnsupportedBinding exactly; InMemoryMetaData.parse raises ToOld (loads nothing) for an EntitiesDescriptor whose validUntil has passed; parse_and_check_signature reports signed metadata good only if the tool verified it under the configured certificate (E-XMLSEC, no --node-id: first signature of the document); time_util.before/after against the clock ghost. NOT verified deductively (the contracts are ASSUMED, drafted text kept under contracts/_unproved_*): InMemoryMetaData.service (four invariant obligations over nested untyped dict/list structures stay unknown), MetaData.certs, do_entity_descriptor, attribute_requirement, entity_categories, metadata generated from configuration. These are covered by a BOUNDED native comparison of every lookup with the generating specification (24 entities, 2 sources, expired / duplicate entities), labelled bounded.",
+ "explanation": "Deductive part: MetadataStore.service returns the answer of one loaded source for exactly the queried entity, role, service and binding and distinguishes UnknownSystemEntity from UnsupportedBinding exactly; InMemoryMetaData.parse raises ToOld (loads nothing) for an EntitiesDescriptor whose validUntil has passed; parse_and_check_signature reports signed metadata good only if the tool verified it under the configured certificate (E-XMLSEC, no --node-id: first signature of the document); time_util.before/after against the clock ghost. NOT verified deductively (the contracts are ASSUMED, drafted text kept under contracts/_unproved_*): InMemoryMetaData.service (four invariant obligations over nested untyped dict/list structures stay unknown), MetaData.certs, do_entity_descriptor, attribute_requirement, entity_categories, metadata generated from configuration. These are covered by a BOUNDED native comparison of every lookup with the generating specification (24 entities, 2 sources, expired / duplicate entities), labelled bounded. The last clause (metadata generated from an entity's own configuration loads back to the same endpoints and keys) has a BOUNDED native check of its own, md_generate: 252 SP and 189 IdP configurations (three endpoint spellings, several bindings, logout endpoints, signing / additional / encryption certificates, metadata_key_usage, entity categories, valid_for) go through the real metadata.entity_descriptor, are loaded pairwise into one real MetadataStore and every per-binding lookup, certs per use and entity categories are compared with the configuration.",
  "not_decided": [
   "InMemoryMetaData.service, MetaData.certs, do_entity_descriptor, attribute_requirement, entity_attributes / entity_categories as deductive obligations",
-  "metadata generated from an entity configuration loads back to the same endpoints and keys (metadata.entity_descriptor, 800 lines of builder code)",
-  "CryptoBackendXMLSecurity (returns False instead of raising; module absent)"
+  "CryptoBackendXMLSecurity (returns False instead of raising; module absent)",
+  "metadata generated from an entity configuration loads back to the same endpoints and keys: BOUNDED only (md_generate); the 800 lines of builder code in metadata.py are under no contract"
  ]
 }
